@@ -196,11 +196,45 @@ class Run:
             return None
         return proc
 
-    def mk_match_proc(self, name):
+    def mk_match_proc(self, name, suffix):
         def proc(value):
-            self.events.append({"k": "match", "pn": name, "v": value})
-            return value
+            self.events.append({"k": "match", "pn": name, "p": self.name_idx(name), "v": value})
+            return value + suffix
         return proc
+
+    # -- parse subtrees of the match-rule values, in the order the models were built
+    def build_order(self, root):
+        order, seen = [], set()
+
+        def visit(m):
+            if id(m) in seen or not hasattr(m, "_tx_fqn"):
+                return
+            seen.add(id(m))
+            order.append(m)
+            for imp in getattr(m, "imports", None) or []:
+                for sub in getattr(imp, "_tx_loaded_models", []):
+                    visit(sub)
+        visit(root)
+        return order
+
+    def forest(self, root, match_names):
+        from arpeggio import Terminal
+        out = []
+
+        def tree(n):
+            if isinstance(n, Terminal):
+                return ["T", self.name_idx(n.rule_name), n.value]
+            return ["N", self.name_idx(n.rule_name), [tree(k) for k in n]]
+
+        def walk(n):
+            if n.rule_name in match_names:
+                out.append(tree(n))
+            elif not isinstance(n, Terminal):
+                for k in n:
+                    walk(k)
+        for m in self.build_order(root):
+            walk(m._tx_parser.parse_tree)
+        return out
 
 
 def mk_user_class(run_holder, name):
@@ -226,8 +260,8 @@ def run_case(case):
         run = Run(case, mm)
         holder[0] = run
         procs = {n: run.mk_proc(n) for n in case["reg"]}
-        for n in case.get("match_rules", []):
-            procs[n] = run.mk_match_proc(n)
+        for n, suf in case.get("match_reg", {}).items():
+            procs[n] = run.mk_match_proc(n, suf)
         mm.register_obj_processors(procs)
         multi = bool(case.get("files"))
         if multi:
@@ -259,9 +293,9 @@ def run_case(case):
                 for fn, text in case["files"].items():
                     with open(os.path.join(d, fn), "w") as f:
                         f.write(text)
-                with open(os.path.join(d, "main.m"), "w") as f:
+                with open(os.path.join(d, "m0.m"), "w") as f:
                     f.write(case["model"])
-                model = mm.model_from_str(case["model"], file_name=os.path.join(d, "main.m"),
+                model = mm.model_from_str(case["model"], file_name=os.path.join(d, "m0.m"),
                                           pre_ref_resolution_callback=pre)
             else:
                 model = mm.model_from_str(case["model"], pre_ref_resolution_callback=pre)
@@ -273,6 +307,7 @@ def run_case(case):
         if out["ok"]:
             run.root = model
             run.snapshot_models()
+            out["forest"] = run.forest(model, ("W", "WW", "WWW"))
             out["models"] = []
             for m, t in zip(run.roots, run.trees):
                 rootcls = mm[type(m).__name__]
